@@ -19,7 +19,14 @@ fn payloads() -> Vec<(&'static str, Vec<u8>)> {
 	while two_k.len() < 2048 {
 		two_k.extend_from_slice(b"compressible text, ");
 	}
-	vec![("1 byte", vec![b'x']), ("2 KiB compressible", two_k), ("70 KiB incompressible", tilesets::lcg_bytes(77, 70 * 1024)), ("100 KiB of one byte", vec![0x41; 100 * 1024]), ("300 KiB repetitive", (0..300 * 1024).map(|i| b"abcdefgh"[i % 8]).collect())]
+	// three payloads of one length that agree in their first and last 24 bytes
+	let near = |mid: &[u8]| -> Vec<u8> {
+		let mut v: Vec<u8> = b"{\"type\":\"tile\",\"head\":1,".to_vec();
+		v.extend_from_slice(mid);
+		v.extend_from_slice(b",\"tail\":\"same for every tile of the set\"}");
+		v
+	};
+	vec![("near-duplicate A", near(b"\"id\":10001")), ("near-duplicate B", near(b"\"id\":10002")), ("near-duplicate C", near(b"\"id\":20001")), ("1 byte", vec![b'x']), ("2 KiB compressible", two_k), ("70 KiB incompressible", tilesets::lcg_bytes(77, 70 * 1024)), ("100 KiB of one byte", vec![0x41; 100 * 1024]), ("300 KiB repetitive", (0..300 * 1024).map(|i| b"abcdefgh"[i % 8]).collect())]
 }
 
 fn really_encoded(comp: u8, data: &[u8], payload: &[u8]) -> Result<(), String> {
@@ -103,7 +110,22 @@ fn part_a(ctx: &Arc<Ctx>) {
 				return;
 			}
 		};
-		let w = match ct::write(rtr, cont, &mut conv, &wpath, &format!("c{i}")) {
+		// file-based targets: the path already holds an earlier export of the same coordinates whose payloads have the
+		// same lengths (every payload reversed), written by the same writer
+		let written = if cont.in_memory() {
+			ct::write(rtr, cont, &mut conv, &wpath, &format!("c{i}"))
+		} else {
+			let path = wpath.join(format!("c{i}.{}", ct::ext(cont)));
+			let _ = std::fs::remove_file(&path);
+			let _ = std::fs::remove_dir_all(&path);
+			let earlier: TileMap = decoded.iter().map(|(k, p)| (*k, codec::encode_with(out_comp, &p.iter().rev().copied().collect::<Vec<u8>>()))).collect();
+			let mut esrc = MemSource::new("earlier", earlier, format, ct::comp_from_id(out_comp));
+			match ct::write_to_existing_path(rtr, cont, &mut esrc, &path) {
+				Ok(_) | Err(_) => {}
+			}
+			ct::write_to_existing_path(rtr, cont, &mut conv, &path)
+		};
+		let w = match written {
 			Ok(w) => w,
 			Err(e) => {
 				if let Some(p) = e.strip_prefix("PANIC ") {
@@ -367,7 +389,7 @@ fn part_b(ctx: &Arc<Ctx>) {
 
 pub fn run(ctx: Arc<Ctx>) {
 	ctx.rule(
-		"part A: every (source compression, target in {keep,none,gzip,brotli}, force flag, target format) = 120 conversions (MBTiles only for its legal pairs) over 5 payloads (1 B, 2 KiB compressible, 70 KiB incompressible, 100 KiB and 300 KiB highly compressible) through TilesConvertReader + the real writer on a multi-thread runtime; \
+		"part A: every (source compression, target in {keep,none,gzip,brotli}, force flag, target format) = 120 conversions (MBTiles only for its legal pairs) over 8 payloads (three near-duplicates of one length that agree in head and tail, 1 B, 2 KiB compressible, 70 KiB incompressible, 100 KiB and 300 KiB highly compressible) through TilesConvertReader + the real writer on a multi-thread runtime, file-based targets into a path that already holds an earlier export with payloads of the same lengths; \
 		 output tiles decoded independently with the compression the output declares. part B: compress/decompress/recompress over 3x3 pairs and optimize_compression over 3 inputs x 8 allowed sets x 3 goals x (5 named payloads + every length 0..=40 quick / 0..=1200 thorough and 2^k-1,2^k,2^k+1 for k=9..16 quick / 9..22 thorough, each as text and as noise). part C: chains of two conversions (source compression x target1 x force1 x target2 x force2 x {versatiles, pmtiles}; every 4th in quick, all 384 in thorough), the second reading the first one's output. non-trivial = configurations that actually re-encode",
 	);
 	ctx.assume("flate2 and brotli crates are the trusted base used to build the source tiles and to decode the outputs");
